@@ -104,12 +104,14 @@ class Sut:
             elif name == "exit":
                 cm = self.ctx.pop()
                 cm.__exit__(None, None, None)
-            elif name == "exit!":
+            elif name in ("exit!", "exit!k"):
+                # the body of the with-block raised: an ordinary exception, or one that only derives from BaseException
                 cm = self.ctx.pop()
-                err = RuntimeError("body raised")
+                kind = RuntimeError if name == "exit!" else KeyboardInterrupt
+                err = kind("body raised")
                 try:
-                    cm.__exit__(RuntimeError, err, None)
-                except RuntimeError as e:
+                    cm.__exit__(kind, err, None)
+                except kind as e:
                     if e is not err:
                         raise
             else:
